@@ -64,32 +64,62 @@ theorem block_resolve (d : Bytes) (o : List SockAns) :
 example : sendBlock 2 [1, 2, 3, 4, 5] [.accept 1, .accept 1, .accept 1, .accept 1, .accept 1] = ⟨.ok, [1, 2, 3, 4, 5], []⟩ := by
   decide +kernel
 
-/-- **the queue keeps order**: after one run of `_process_send_queue` the byte stream written is the blocks resolved `True`, complete and in
-queue order, followed by a prefix of the block that failed / is still being sent (nothing of any later block) -/
-theorem queue_in_order (q : List Bytes) (o : List SockAns) :
+/-- **every queued block gets its own, truthful result — all socket behaviours.**  One run of `_process_send_queue` (which goes on with the
+next block after a failed one): for each block taken from the queue the bytes written for it are a prefix of it, and all of it if it was
+resolved `True`; unless the oracle ran out inside a send, every block of the queue is resolved and the queue is empty. -/
+theorem queue_blocks (q : List Bytes) (o : List SockAns) :
+    (processQueue packetSize q o).resolved.length ≤ q.length
+    ∧ (processQueue packetSize q o).parts.length = (processQueue packetSize q o).resolved.length + (if (processQueue packetSize q o).pending then 1 else 0)
+    ∧ (∀ x ∈ List.zip (processQueue packetSize q o).parts q, x.1 <+: x.2)
+    ∧ (∀ x ∈ List.zip (processQueue packetSize q o).resolved (List.zip (processQueue packetSize q o).parts q), x.1 = true → x.2.1 = x.2.2)
+    ∧ ((processQueue packetSize q o).pending = false → (processQueue packetSize q o).resolved.length = q.length ∧ (processQueue packetSize q o).queue = []) :=
+  processQueue_blocks packetSize packet_size_pos q o
+
+/-- **the queue keeps order** (socket that stays failed once it failed — `ECONNRESET`, `EPIPE`): the byte stream of one run is the leading
+blocks resolved `True`, complete and in queue order, followed by a prefix of the block that failed / is still being sent, and nothing of any
+later block -/
+theorem queue_in_order (q : List Bytes) (o : List SockAns) (hst : Sticky o) :
     let r := processQueue packetSize q o
-    let n := (r.resolved.filter (· = true)).length
+    let n := leadTrue r.resolved
     ∃ part t, r.written = (q.take n).flatten ++ part ∧ (q.drop n).head?.getD [] = part ++ t
       ∧ (r.resolved = List.replicate q.length true → part = [] ∧ r.queue = [] ∧ r.pending = false) ∧ n ≤ q.length :=
-  processQueue_written packetSize packet_size_pos q o
+  processQueue_written packetSize packet_size_pos q o hst
+
+/-- non-vacuity: sticky oracles exist with and without an error; three blocks, the socket breaks inside the second -/
+example : Sticky [.accept 3, .wouldBlock, .accept 5] ∧ Sticky [.accept 3, .error, .error] ∧ ¬ Sticky [.error, .accept 1] := by
+  refine ⟨trivial, ?_, ?_⟩
+  · intro a ha; simp at ha; exact ha
+  · intro h; have := h (.accept 1) (by simp); cases this
+example :
+    let r := processQueue 4 [[1, 2], [3, 4, 5], [6]] [.accept 2, .accept 1, .error, .error, .error]
+    r.resolved = [true, false, false] ∧ r.parts = [[1, 2], [3], []] ∧ r.queue = [] ∧ r.pending = false ∧ leadTrue r.resolved = 1 := by
+  decide +kernel
+
+/-- **regression witness for the repaired defect** (`fixed:` 8ac2aeb): the loop that *returned* after a failed block left the blocks behind
+it in the queue, unresolved — the loop that exists resolves every one of them -/
+theorem returning_loop_strands_queue :
+    (processQueueReturning 4 [[1, 2], [3, 4, 5], [6]] [.accept 2, .error, .error]).queue = [[6]]
+    ∧ (processQueueReturning 4 [[1, 2], [3, 4, 5], [6]] [.accept 2, .error, .error]).resolved = [true, false]
+    ∧ (processQueue 4 [[1, 2], [3, 4, 5], [6]] [.accept 2, .error, .error]).queue = []
+    ∧ (processQueue 4 [[1, 2], [3, 4, 5], [6]] [.accept 2, .error, .error]).resolved = [true, false, false] := by decide +kernel
 
 theorem head_drop_map (bs : List Block) (n : Nat) :
     ((bs.map frameOf).drop n).head?.getD [] = match bs.drop n with | [] => [] | b :: _ => frameOf b := by
   rw [← List.map_drop]; cases bs.drop n <;> simp
 
-/-- **composition with C04.**  Valid HSMS blocks are queued; the socket behaves in any way; the peer reads the written stream in any
-segmentation and runs the receive loop of `Model.Rx`.  Then every block resolved `True` is delivered to the peer — exactly once, in order —
+/-- **composition with C04.**  Valid HSMS blocks are queued; the socket behaves in any way but stays failed once it failed; the peer reads the written stream in any
+segmentation and runs the receive loop of `Model.Rx`.  Then every leading block resolved `True` is delivered to the peer — exactly once, in order —
 what is delivered is always a prefix of what was queued, no run of the peer's loop meets an undecodable frame, and if all blocks were
 resolved `True` the peer has exactly the queued blocks and an empty buffer. -/
-theorem compose_with_framing (bs : List Block) (hv : ∀ b ∈ bs, Valid b) (o : List SockAns) (chunks : List Bytes)
+theorem compose_with_framing (bs : List Block) (hv : ∀ b ∈ bs, Valid b) (o : List SockAns) (hst : Sticky o) (chunks : List Bytes)
     (hc : chunks.flatten = (processQueue packetSize (bs.map frameOf) o).written) :
     let r := processQueue packetSize (bs.map frameOf) o
-    let n := (r.resolved.filter (· = true)).length
+    let n := leadTrue r.resolved
     let s := chunks.foldl feed Rx.init
     bs.take n <+: s.delivered ∧ s.delivered <+: bs ∧ s.aborts = 0
       ∧ (r.resolved = List.replicate bs.length true → s = ⟨[], bs, 0⟩) := by
   intro r n s
-  obtain ⟨part, t, hw, hh, hall, hn⟩ := processQueue_written packetSize packet_size_pos (bs.map frameOf) o
+  obtain ⟨part, t, hw, hh, hall, hn⟩ := processQueue_written packetSize packet_size_pos (bs.map frameOf) o hst
   have htake : ((bs.map frameOf).take n).flatten = wire (bs.take n) := by simp [wire, List.map_take]
   have hvt : ∀ b ∈ bs.take n, Valid b := fun b hb => hv b (List.mem_of_mem_take hb)
   -- what the loop makes of the partial block at the end
@@ -153,9 +183,11 @@ theorem compose_with_framing (bs : List Block) (hv : ∀ b ∈ bs, Valid b) (o :
     obtain ⟨hp, _, _⟩ := hall (by rw [hlen]; exact hrep)
     obtain ⟨hf, hr⟩ := hnil hp
     have hn' : n = bs.length := by
-      show (r.resolved.filter (· = true)).length = bs.length
-      rw [hrep]; simp
+      show leadTrue r.resolved = bs.length
+      rw [hrep]; exact leadTrue_replicate _
     rw [hs, hf, hr, hn', List.take_length, List.append_nil]
+
+example : Sticky (List.replicate 7 (SockAns.accept 5)) := by simp [List.replicate, Sticky]
 
 /-- non-vacuity of the composition: two blocks, a socket that takes 5 bytes per call, the peer reading 4-byte segments -/
 example :
